@@ -441,8 +441,9 @@ def batch(prop: str, tier: str, base_seed: int, budget_s=None, max_runs=None, wo
     extra = getattr(prof, "evidence_extra", None)
     if extra:
         ev["coverage"].update(extra(agg))
-    os.makedirs(os.path.join(VERIF, "evidence"), exist_ok=True)
-    with open(os.path.join(VERIF, "evidence", f"{prop}.json"), "w") as fh:
+    evdir = os.environ.get("VERIF_EVIDENCE_DIR") or os.path.join(VERIF, "evidence")
+    os.makedirs(evdir, exist_ok=True)
+    with open(os.path.join(evdir, f"{prop}.json"), "w") as fh:
         json.dump(ev, fh, indent=1, default=str)
     print(f"[dsim] {prop}: {evaluations} runs, {len(digests)} distinct, {len(nontrivial_digests)} non-trivial, "
           f"{ops_total} ops, faults fired: write_error={agg['wstats'].get('write_error_fired', 0)} crash={agg['wstats'].get('crash_fired', 0)}; "
